@@ -130,7 +130,7 @@ def atoms(fn, cond, pol, inline=True, cond_expand=True):
                 depth[0] -= 1
                 return
         out.append((n, p))
-        if k == 'CallExpr' and inline:
+        if k in ('CallExpr', 'CXXMemberCallExpr') and inline:
             out.extend(_inline_predicate(fn, n, p))
         # `T *r = NULL; if (c) r = f(); if (!r) fail;` -- r != 0 means the one assignment ran: its guards held and f() != 0
         if k == 'DeclRefExpr' and p and cond_expand and depth[0] < 3 and n.get('vid') is not None:
@@ -210,13 +210,29 @@ def _inline_predicate(fn, call, pol):
     if expr is None:
         return []
     env, envr = {}, {}
+    if call['k'] == 'CXXMemberCallExpr':
+        # a member predicate (`bool unset() const { return m_x < 0; }`): its `this` is the receiver
+        if call.get('obj') is None or not _pure_expr(g, expr):
+            return []
+        env['this'] = fn.render(fn.strip_all_casts(call['obj']))
+        envr['this'] = fn.render(fn.strip_all_casts(call['obj']), resolve=True)
     for p_, a in zip(ps, args):
         env[p_['vid']] = fn.render(fn.strip_all_casts(a))
         envr[p_['vid']] = fn.render(fn.strip_all_casts(a), resolve=True)
     out = []
     for a, p in atoms(g, expr, pol, inline=False):
-        out.append(({'k': 'Inlined', 'fn': g, 'n': a, 'env': env, 'envr': envr, 'ln': call.get('ln'), 'col': call.get('col'), 'i': call.get('i')}, p))
+        out.append(({'k': 'Inlined', 'fn': g, 'n': a, 'env': env, 'envr': envr, 'ln': call.get('ln'), 'col': call.get('col'), 'i': call.get('i'),
+                     'member': call['k'] == 'CXXMemberCallExpr'}, p))
     return out
+
+
+def _pure_expr(g, expr):
+    """no assignment, increment or call of a non-const member in the expression"""
+    for x in g.walk(expr):
+        if x['k'] in ('CompoundAssignOperator',) or (x['k'] == 'BinaryOperator' and x.get('op') == '=') or \
+                (x['k'] == 'UnaryOperator' and x.get('op') in ('pre++', 'post++', 'pre--', 'post--')):
+            return False
+    return True
 
 
 def _cval(fn, x):
